@@ -21,7 +21,8 @@ from .. import grputil as G
 
 INF = float("inf")
 SIG_TRAILING = "trailing-empty-group"          # defect class F-C10
-GROUP_OPS = ("sum", "any", "all", "min", "max", "nb", "nth", "first", "from")
+GROUP_OPS = ("sum", "any", "all", "min", "max", "nb", "nth", "first", "from", "pnth", "pfirst")
+PERSON_OPS = ("hasrole", "rank", "partner")
 DTYPES = ("float64", "float32", "int64", "int32")
 
 
@@ -30,15 +31,31 @@ DTYPES = ("float64", "float32", "int64", "int32")
 
 
 def split_line(line: str):
+    """`ents` = the group entities of the line (household, and `family` for chain2), each a view
+    {roles, count, members}; for chain / chain2 `args` = [start, shortcuts, op, op args…]"""
     f = line.split()
     assert f[0] == "grp"
-    return {"roles": f[1], "count": int(f[2]), "members": G.parse_members(f[3]), "mtok": f[3],
-            "op": f[4], "role": f[5], "args": f[6:]}
+    c = {"roles": f[1], "count": int(f[2]), "members": G.parse_members(f[3]), "mtok": f[3],
+         "op": f[4], "role": f[5], "args": f[6:], "contain": "c0", "second": None}
+    c["ents"] = [{"roles": c["roles"], "count": c["count"], "members": c["members"]}]
+    if c["op"] == "chain2":
+        r2, n2, m2, ct = c["args"][:4]
+        c["second"] = (r2, int(n2), m2)
+        c["contain"] = ct
+        c["ents"].append({"roles": r2, "count": int(n2), "members": G.parse_members(m2)})
+        c["args"] = c["args"][4:]
+    return c
 
 
 @functools.lru_cache(maxsize=8)
-def _population(roles: str, count: int, mtok: str):
-    return G.build_population(roles, count, G.parse_members(mtok))
+def _population(roles, count, mtok, second, contain, roles_unset, positions, clone):
+    r2, n2, m2 = second or (None, 0, None)
+    pops = G.build_population(roles, count, G.parse_members(mtok), r2, n2, G.parse_members(m2) if m2 else None,
+                              contain, roles_unset, list(positions) if positions is not None else None)
+    if clone:
+        sim = pops[0].clone()
+        pops = (sim, sim.persons, *[sim.populations[p.entity.key] for p in pops[2:]])
+    return pops
 
 
 @functools.lru_cache(maxsize=1)
@@ -56,60 +73,109 @@ def _np(tok: str, dtype):
     return G.np_vals(kind, vals, dtype)
 
 
-def _call(target, H, tok, op, role, args, dtype):
+def _role_obj(groups, rtok, pl):
+    """the Role object of a role token: from the entity's tables or, for a role a person can hold,
+    through `GroupPopulation.get_role(key)` (payload `get_role`)"""
+    if rtok == "-":
+        return None
+    if rtok == "?":
+        return "not-a-role"
+    gp = groups[0 if rtok[0] in "tf" else 1]
+    role = G.role_of(gp.entity, rtok)
+    if pl.get("get_role") and not role.subroles:
+        role = gp.get_role(role.key)
+    return role
+
+
+def _call(target, groups, op, role, args, dtype, pl):
     """call method `op` on `target` (a population or a projector)"""
-    robj = G.role_object(tok, role)
+    robj = _role_obj(groups, role, pl)
+    P = groups[0].members
+
+    def with_role(m, *a):
+        if role == "-":
+            return m(*a)
+        return m(*a, robj) if pl.get("role_positional") else m(*a, role=robj)
+
     if op in ("sum", "any", "all", "min", "max"):
-        a = _np(args[0], dtype)
-        m = getattr(target, op)
-        return m(a) if role == "-" else m(a, role=robj)
+        return with_role(getattr(target, op), _np(args[0], dtype))
     if op == "nb":
-        m = target.nb_persons
-        return m() if role == "-" else m(role=robj)
-    if op == "nth":
-        return target.value_nth_person(int(args[0]), _np(args[2], dtype), default=int(args[1]))
-    if op == "first":
-        return target.value_from_first_person(_np(args[0], dtype))
+        return with_role(target.nb_persons)
+    if op in ("nth", "pnth"):
+        if op == "pnth":
+            args = args[1:]
+        k, d, a = int(args[0]), int(args[1]), _np(args[2], dtype)
+        if d == 0 and pl.get("omit_default"):
+            return target.value_nth_person(k, a)
+        return target.value_nth_person(k, a, default=d)
+    if op in ("first", "pfirst"):
+        return target.value_from_first_person(_np(args[-1], dtype))
     if op == "from":
-        return target.value_from_person(_np(args[1], dtype), robj, default=int(args[0]))
+        d, a = int(args[0]), _np(args[1], dtype)
+        if d == 0 and pl.get("omit_default"):
+            return target.value_from_person(a, robj)
+        return target.value_from_person(a, robj, default=d)
     if op == "hasrole":
         return target.has_role(robj)
     if op == "rank":
-        return target.get_rank(H, _np(args[0], dtype), condition=_np(args[1], None))
+        entity = P.household if pl.get("rank_entity") == "projector" else groups[0]
+        cond = _np(args[1], None)
+        if pl.get("cond_default") and cond.all():
+            return target.get_rank(entity, _np(args[0], dtype))
+        if pl.get("cond_scalar") and cond.all():
+            return target.get_rank(entity, _np(args[0], dtype), condition=True)
+        return target.get_rank(entity, _np(args[0], dtype), condition=cond)
+    if op == "partner":
+        return target.value_from_partner(_np(args[0], dtype), P.household, robj)
+    if op == "project":
+        return with_role(target.project, _np(args[0], dtype))
     raise ValueError("unknown op " + op)
 
 
-def _attr_name(tok: str, sc: str) -> str:
+def _attr_name(groups, sc: str) -> str:
     if sc == "h":
         return "household"
+    if sc == "k":
+        return "family"
     if sc == "fp":
         return "first_person"
     if sc == "x":
         return "no_such_thing"
-    return G.role_object(tok, sc).key
+    return G.role_of(groups[0 if sc[0] in "tf" else 1].entity, sc).key
 
 
 def impl(case: Case) -> str:
     c = split_line(case.line)
-    tok, op, role, args = c["roles"], c["op"], c["role"], c["args"]
-    dtype = (case.payload or {}).get("dtype", "float64")
-    sim, P, H = _population(tok, c["count"], c["mtok"])
+    op, role, args = c["op"], c["role"], c["args"]
+    pl = case.payload or {}
+    dtype = pl.get("dtype", "float64")
+    positions = None
+    if op in ("pnth", "pfirst"):
+        positions = tuple(G.parse_vals(args[0])[1])
+    sim, P, *groups = _population(c["roles"], c["count"], c["mtok"], c["second"], c["contain"],
+                                  bool(pl.get("roles_unset")), positions, bool(pl.get("clone")))
+    H = groups[0]
     try:
         if op == "positions":
             return G.fmt_array(H.members_position)
         if op == "omap":
             return G.fmt_array(H.ordered_members_map)
-        if op == "project":
-            x = _np(args[0], dtype)
-            r = H.project(x) if role == "-" else H.project(x, role=G.role_object(tok, role))
-            return G.fmt_array(r)
-        if op == "chain":
-            target = P if args[0] == "p" else H
-            for sc in args[1].split("."):
-                target = getattr(target, _attr_name(tok, sc))
-            return G.fmt_int_array(_call(target, H, tok, args[2], role, args[3:], dtype))
-        target = P if op in ("hasrole", "rank") else H
-        return G.fmt_array(_call(target, H, tok, op, role, args, dtype))
+        if op in ("chain", "chain2"):
+            start, scs, op2, rest = args[0], args[1], args[2], args[3:]
+            target = {"p": P, "g": H, "G": groups[-1]}[start]
+            for sc in scs.split("."):
+                target = getattr(target, _attr_name(groups, sc))
+            if op2 == "call":
+                # a variable holding the values, read by calling the projector
+                ref = target.reference_entity
+                name = {"person": "pv", "household": "gv", "family": "kv"}[ref.entity.key]
+                sim.delete_arrays(name)
+                sim.set_input(name, G.PERIOD, _np(rest[0], "float32"))
+                return G.fmt_int_array(target(name, G.PERIOD))
+            return G.fmt_int_array(_call(target, groups, op2, role, rest, dtype, pl))
+        target = P if op in PERSON_OPS else H
+        r = _call(target, groups, op, role, args, dtype, pl)
+        return G.fmt_int_array(r) if op == "partner" else G.fmt_array(r)
     except Exception:
         return "ERR"
 
@@ -133,9 +199,14 @@ def _vals(tok, n):
     return kind, v
 
 
+def _ent(rtok: str) -> int:
+    return 0 if rtok[0] in "tf" else 1
+
+
 def _unique_member_map(c, rtok):
     """group -> the member holding the unique role (None if nobody); Silent when the role is not
     declared unique or is held twice in a group"""
+    rtok = rtok.lower()
     if rtok in ("-", "?") or G.role_max(c["roles"], rtok) != 1:
         raise Silent
     match = G.role_matches(c["roles"], rtok)
@@ -148,11 +219,23 @@ def _unique_member_map(c, rtok):
     return out
 
 
+def _valid_positions(c, pos):
+    if len(pos) != len(c["members"]):
+        return False
+    for g in range(c["count"]):
+        ms = _members(c, g)
+        if sorted(pos[i] for i in ms) != list(range(len(ms))):
+            return False
+    return True
+
+
 def naive(c, op, role, args):
-    """expected list of the op applied per group / per person, as python numbers / bools"""
+    """expected list of the op applied per group / per person of the entity view `c`, as python
+    numbers / bools"""
     n, count = len(c["members"]), c["count"]
     if role == "?":
         raise Silent
+    role = role.lower()
     match = G.role_matches(c["roles"], role)
     groups = range(count)
     if op == "sum":
@@ -160,18 +243,18 @@ def naive(c, op, role, args):
         return [sum(int(a[i]) for i in _members(c, g, match)) for g in groups]
     if op == "any":
         kind, a = _vals(args[0], n)
-        if kind != "b":
-            raise Silent
-        return [any(a[i] for i in _members(c, g, match)) for g in groups]
+        if kind != "b" and any(v < 0 for v in a):
+            raise Silent      # `any` is computed as sum > 0: stated for boolean (non-negative) arrays
+        return [any(bool(a[i]) for i in _members(c, g, match)) for g in groups]
     if op == "all":
         _, a = _vals(args[0], n)
-        return [all(a[i] for i in _members(c, g, match)) for g in groups]
+        return [all(bool(a[i]) for i in _members(c, g, match)) for g in groups]
     if op == "min":
         _, a = _vals(args[0], n)
-        return [min([a[i] for i in _members(c, g, match)], default=INF) for g in groups]
+        return [min([int(a[i]) for i in _members(c, g, match)], default=INF) for g in groups]
     if op == "max":
         _, a = _vals(args[0], n)
-        return [max([a[i] for i in _members(c, g, match)], default=-INF) for g in groups]
+        return [max([int(a[i]) for i in _members(c, g, match)], default=-INF) for g in groups]
     if op == "nb":
         return [len(_members(c, g, match)) for g in groups]
     if op in ("nth", "first"):
@@ -182,6 +265,22 @@ def naive(c, op, role, args):
         kind, a = _vals(vt, n)
         d = bool(d) if kind == "b" else d
         return [a[_members(c, g)[k]] if len(_members(c, g)) > k else d for g in groups]
+    if op in ("pnth", "pfirst"):
+        # members_position assigned: the n-th member is the one whose assigned position is n
+        _, pos = G.parse_vals(args[0])
+        if not _valid_positions(c, pos):
+            raise Silent
+        if op == "pnth":
+            k, d, vt = int(args[1]), int(args[2]), args[3]
+        else:
+            k, d, vt = 0, 0, args[1]
+        kind, a = _vals(vt, n)
+        d = bool(d) if kind == "b" else d
+        out = []
+        for g in groups:
+            who = [i for i in _members(c, g) if pos[i] == k]
+            out.append(a[who[0]] if who else d)
+        return out
     if op == "from":
         kind, a = _vals(args[1], n)
         d = bool(int(args[0])) if kind == "b" else int(args[0])
@@ -190,6 +289,32 @@ def naive(c, op, role, args):
         if match is None:
             raise Silent
         return [ri in match for _, ri in c["members"]]
+    if op == "partner":
+        # every holder of one of the two sub-roles gets the value of the holder of the other one
+        if role[0] != "t":
+            raise Silent
+        top, _ = G.role_table(c["roles"])
+        subs = top[int(role[1:])]["flat"]
+        if len(subs) != 2 or G.parse_roles(c["roles"])[int(role[1:])][1] != 2:
+            raise Silent
+        _, a = _vals(args[0], n)
+        holder = [_unique_member_map(c, f"f{s}") for s in subs]
+        out = []
+        for g, r in c["members"]:
+            if r == subs[0]:
+                m = holder[1][g]
+            elif r == subs[1]:
+                m = holder[0][g]
+            else:
+                out.append(0)
+                continue
+            out.append(int(a[m]) if m is not None else 0)
+        return out
+    if op == "project":
+        kind, x = _vals(args[0], count)
+        if match is None:
+            return [x[g] for g, _ in c["members"]]
+        return [int(x[g]) if r in match else 0 for g, r in c["members"]]
     if op == "rank":
         _, crit = _vals(args[0], n)
         _, cond = _vals(args[1], n)
@@ -206,24 +331,63 @@ def naive(c, op, role, args):
     raise Silent
 
 
-def _transform(c, sc, v):
-    """one projector of a chain, naively"""
-    n, count = len(c["members"]), c["count"]
-    if sc == "h":        # group -> every person gets the value of its group
+def _chain_steps(c, start, shortcuts):
+    """the projectors an attribute chain resolves to (outermost first) and the level it ends on:
+    "p" or the index of a group entity; Silent when the chain does not resolve"""
+    nents = len(c["ents"])
+    contain = {0: [1] if c["contain"] in ("c1", "c3") else [], 1: [0] if c["contain"] in ("c2", "c3") else []}
+    cur = {"p": "p", "g": 0, "G": 1}[start]
+    steps = []
+    for sc in shortcuts.split("."):
+        if sc in ("h", "k"):
+            e = 0 if sc == "h" else 1
+            if e >= nents:
+                raise Silent
+            if cur == "p":
+                steps.append(("to_person", e))
+            elif e in contain[cur] and e != cur:
+                # the key of a containing entity stands for first_person.<that entity>
+                steps += [("first_person", cur), ("to_person", e)]
+            else:
+                raise Silent
+            cur = e
+        elif sc == "fp":
+            if cur == "p":
+                raise Silent
+            steps.append(("first_person", cur))
+            cur = "p"
+        elif sc == "x":
+            raise Silent
+        else:
+            if cur == "p" or _ent(sc) != cur or G.role_max(c["ents"][cur]["roles"], sc.lower()) != 1:
+                raise Silent
+            steps.append(("unique_role", cur, sc))
+            cur = "p"
+    return steps, cur
+
+
+def _apply_step(c, step, v):
+    """one projector, naively"""
+    ev = c["ents"][step[1]]
+    n, count = len(ev["members"]), ev["count"]
+    if step[0] == "to_person":      # group -> every person gets the value of its group
         if len(v) != count:
             raise Silent
-        return [v[g] for g, _ in c["members"]]
+        return [v[g] for g, _ in ev["members"]]
     if len(v) != n:
         raise Silent
-    if sc == "fp":       # person -> group: value of the first member (0 when there is none)
-        return [v[_members(c, g)[0]] if _members(c, g) else 0 for g in range(count)]
-    return [v[m] if m is not None else 0 for m in _unique_member_map(c, sc)]
+    if step[0] == "first_person":   # person -> group: value of the first member (0 when there is none)
+        return [v[_members(ev, g)[0]] if _members(ev, g) else 0 for g in range(count)]
+    return [v[m] if m is not None else 0 for m in _unique_member_map(ev, step[2])]
 
 
 def _in_domain(c) -> bool:
-    n, count = len(c["members"]), c["count"]
-    nflat = G.flat_count(c["roles"])
-    return n >= 1 and count >= 1 and all(0 <= g < count and 0 <= r < nflat for g, r in c["members"])
+    for ev in c["ents"]:
+        n, count = len(ev["members"]), ev["count"]
+        nflat = G.flat_count(ev["roles"])
+        if not (n >= 1 and count >= 1 and all(0 <= g < count and 0 <= r < nflat for g, r in ev["members"])):
+            return False
+    return len({len(ev["members"]) for ev in c["ents"]}) == 1
 
 
 def _txt(vals, as_int=False):
@@ -290,28 +454,26 @@ def oracle(case: Case, out: str):
         elif op == "project":
             if role == "?":
                 return None
-            kind, x = _vals(args[0], count)
-            match = G.role_matches(c["roles"], role)
-            if match is None:
-                want = _txt([x[g] for g, _ in c["members"]])
+            want = _txt(naive(c, op, role, args), as_int=role != "-")
+        elif op in ("chain", "chain2"):
+            start, scs, op2, rest = args[0], args[1], args[2], args[3:]
+            steps, cur = _chain_steps(c, start, scs)
+            if op2 == "call":
+                # the projector called with a variable: the variable's values seen through the chain
+                size = n if cur == "p" else c["ents"][cur]["count"]
+                _, v = _vals(rest[0], size)
+            elif op2 in PERSON_OPS:
+                if cur != "p":
+                    raise Silent
+                ev = c["ents"][0] if op2 != "hasrole" or role in "-?" else c["ents"][_ent(role)]
+                v = naive(ev, op2, role, rest)
             else:
-                want = _txt([x[g] if r in match else 0 for g, r in c["members"]], as_int=True)
-        elif op == "chain":
-            v = naive(c, args[2], role, args[3:])
-            start = args[0]
-            lvl = "p" if args[2] in ("hasrole", "rank") else "g"
-            # the chain must be well formed: alternate levels and end on the level of the method
-            cur = start
-            for sc in args[1].split("."):
-                if sc == "x" or (cur == "p") != (sc == "h"):
+                if cur == "p" or (role not in "-?" and _ent(role) != cur):
                     raise Silent
-                if sc not in ("h", "fp") and G.role_max(c["roles"], sc) != 1:
-                    raise Silent
-                cur = "g" if cur == "p" else "p"
-            if cur != lvl:
-                raise Silent
-            for sc in reversed(args[1].split(".")):
-                v = _transform(c, sc, v)
+                v = naive(c["ents"][cur], op2, role, rest)
+            if op2 != "project":        # `project` is not projectable: returned as it is
+                for st in reversed(steps):
+                    v = _apply_step(c, st, v)
             want = _txt(v, as_int=True)
         elif op == "rank":
             try:
@@ -323,7 +485,7 @@ def oracle(case: Case, out: str):
                 msg = _rank_consistent(c, out)
                 return (f"rank-consistency:{op}", msg) if msg else None
         else:
-            want = _txt(naive(c, op, role, args))
+            want = _txt(naive(c, op, role, args), as_int=op == "partner")
     except Silent:
         return None
     if out != want:
@@ -439,9 +601,78 @@ def _bools(rng, n):
     return [rng.random() < p for _ in range(n)]
 
 
-def _case(tok, count, members, op, role, *args, claimed=True, tags=(), dtype="float64"):
+def _case(tok, count, members, op, role, *args, claimed=True, tags=(), dtype="float64", pl=None):
     line = " ".join(["grp", tok, str(count), G.fmt_members(members), op, role, *map(str, args)])
-    return Case(line=line, payload={"dtype": dtype}, claimed=claimed, tags=(op,) + tuple(tags))
+    payload = {"dtype": dtype}
+    if pl:
+        payload.update(pl)
+    return Case(line=line, payload=payload, claimed=claimed, tags=(op,) + tuple(tags))
+
+
+def call_spellings(rng: random.Random, members):
+    """how the adapter spells the call (the line, the model and the oracle do not depend on it):
+    role passed positionally / by keyword, Role looked up with get_role(key), default= omitted when
+    it is 0, get_rank given the projector person.household instead of the population and no /
+    scalar / array condition, the cloned simulation's populations, members_role left unset when
+    everybody holds the first role"""
+    base = {}
+    if members and all(r == 0 for _, r in members) and rng.random() < 0.6:
+        base["roles_unset"] = True
+    if rng.random() < 0.1:
+        base["clone"] = True
+
+    def one():
+        f = dict(base)
+        for key in ("role_positional", "omit_default", "get_role"):
+            if rng.random() < 0.35:
+                f[key] = True
+        if rng.random() < 0.4:
+            f["rank_entity"] = "projector"
+        r = rng.random()
+        if r < 0.3:
+            f["cond_default"] = True
+        elif r < 0.5:
+            f["cond_scalar"] = True
+        return f
+    return one
+
+
+def random_positions(rng: random.Random, members):
+    """assigned members_position: inside every group the positions 0..size-1 in a random order"""
+    by_group: dict = {}
+    for i, (g, _) in enumerate(members):
+        by_group.setdefault(g, []).append(i)
+    pos = [0] * len(members)
+    for idx in by_group.values():
+        perm = list(range(len(idx)))
+        rng.shuffle(perm)
+        for i, q in zip(idx, perm):
+            pos[i] = q
+    return pos
+
+
+def second_entity(rng: random.Random, count, members):
+    """a second group entity over the same persons: nested (every household inside one family) or
+    arbitrary, with empty families; -> (roles2, count2, members2, contain flag)"""
+    tok2 = rng.choice(ROLE_TABLES)
+    top2, flat2 = G.role_table(tok2)
+    count2 = rng.choice([1, 2, 2, 3, 4])
+    used = rng.sample(range(count2), rng.randint(1, count2))
+    if rng.random() < 0.6:
+        fam_of = {g: rng.choice(used) for g in range(count)}
+        fams = [fam_of[g] for g, _ in members]
+    else:
+        fams = [rng.choice(used) for _ in members]
+    held: dict = {}
+    members2 = []
+    for f in fams:
+        r = rng.randrange(len(flat2))
+        if flat2[r]["max"] is not None and held.get((f, r), 0) >= flat2[r]["max"] and rng.random() < 0.85:
+            free = [q for q in range(len(flat2)) if flat2[q]["max"] is None]
+            r = rng.choice(free) if free else r
+        held[(f, r)] = held.get((f, r), 0) + 1
+        members2.append((f, r))
+    return tok2, count2, members2, rng.choice(["c1", "c1", "c1", "c3", "c2", "c0"])
 
 
 def _shape_tags(count, members):
@@ -465,9 +696,11 @@ def cases_for(rng: random.Random, tok, count, members, full=False):
     B = lambda v: G.fmt_vals("b", v)
     st = tuple(_shape_tags(count, members))
     dt = lambda: rng.choice(DTYPES)
+    spell = call_spellings(rng, members)
     def mk(op, role, *args, claimed=True, tags=()):
-        return _case(tok, count, members, op, role, *args, claimed=claimed, dtype=dt(),
-                     tags=st + (("role",) if role != "-" else ("no-role",)) + tuple(tags))
+        pl = spell()
+        return _case(tok, count, members, op, role, *args, claimed=claimed, dtype=dt(), pl=pl,
+                     tags=st + (("role",) if role != "-" else ("no-role",)) + tuple(tags) + tuple(sorted(k for k in pl)))
     ra = _role_args(tok)
     roles = ["-"] + (ra if full else rng.sample(ra, min(len(ra), 2)))
     out = [mk("positions", "-")]
@@ -540,6 +773,82 @@ def cases_for(rng: random.Random, tok, count, members, full=False):
             out.append(mk("chain", rng.choice(ra), "g", r, "hasrole"))
         out.append(mk("chain", r0, "p", "h." + r + ".h", "sum", I(a)))
     out.append(mk("chain", r0, "p", "h.fp.h", "max", I(a)))
+    # every aggregation on the other input dtypes: any / all on integers, min / max on booleans
+    r1 = rng.choice(roles)
+    nonneg = [rng.choice([0, 0, 1, 2, 5]) for _ in range(n)]
+    zeros = [rng.choice([0, 1, -1, 3, -2]) for _ in range(n)]
+    out += [mk("any", r1, I(nonneg), tags=("any-int",)), mk("any", r1, I(zeros), tags=("any-int-signed",)),
+            mk("all", r1, I(zeros), tags=("all-int",)), mk("all", rng.choice(roles), I(nonneg), tags=("all-int",)),
+            mk("min", r1, B(b), tags=("min-bool",)), mk("max", r1, B(b), tags=("max-bool",))]
+    # partner: roles with exactly two sub-roles (others are refused)
+    two = [f"t{k}" for k, (_, ns) in enumerate(G.parse_roles(tok)) if ns == 2]
+    for r in two:
+        out.append(mk("partner", r, I(a)))
+        out.append(mk("partner", r, B(b)))
+    others = [r for r in ra if r not in two]
+    if others and (full or rng.random() < 0.3):
+        out.append(mk("partner", rng.choice(others), I(a)))
+    # members_position assigned (not the order of appearance)
+    if n:
+        pos = random_positions(rng, members)
+        for k in sorted({0, max(0, biggest - 1), biggest} if full else {rng.choice([0, 1]), rng.choice([max(0, biggest - 1), biggest])}):
+            out.append(mk("pnth", "-", I(pos), k, rng.choice([0, -7]), I(a)))
+        out.append(mk("pnth", "-", I(pos), rng.choice([0, 1]), rng.choice([0, 1]), B(b)))
+        out.append(mk("pfirst", "-", I(pos), I(a)))
+    # attributes that are not projectable come back untransformed; projectors can be called
+    out.append(mk("chain", rng.choice(roles), "p", "h", "project", I(x)))
+    out.append(mk("chain", "-", "p", "h", "call", I(x)))
+    out.append(mk("chain", "-", "g", "fp", "call", I(a)))
+    out.append(mk("chain", "-", "p", "h.fp", "call", I(a)))
+    out.append(mk("chain", "-", "g", "fp.h", "call", I(x)))
+    for r in uniq[:1]:
+        out.append(mk("chain", "-", "g", r, "call", I(a)))
+        out.append(mk("chain", "-", "p", "h." + r + ".h", "call", I(x)))
+    # a second group entity, the `containing_entities` shortcut, chains of 3..5 projectors
+    if n and (full or rng.random() < 0.5):
+        out += chain2_cases(rng, tok, count, members, a, b, x, spell, st)
+    return out
+
+
+def chain2_cases(rng, tok, count, members, a, b, x, spell, st):
+    n = len(members)
+    I = lambda v: G.fmt_vals("i", v)
+    B = lambda v: G.fmt_vals("b", v)
+    tok2, count2, members2, ct = second_entity(rng, count, members)
+    y = _ints(rng, count2, 0, 90)
+
+    def mk2(role, start, scs, op2, *args, tags=()):
+        return _case(tok, count, members, "chain2", role, tok2, count2, G.fmt_members(members2), ct, start, scs, op2,
+                     *args, dtype=rng.choice(DTYPES), pl=spell(), tags=st + ("contain-" + ct,) + tuple(tags))
+    ra2 = [r.upper() for r in _role_args(tok2)]
+    uniq2 = [r.upper() for r in _unique_roles(tok2)]
+    uniq = _unique_roles(tok)
+    out = [mk2("-", "p", "k", "sum", I(a)), mk2(rng.choice(["-"] + ra2), "p", "k", rng.choice(["sum", "max", "nb"]), I(a)) if True else None]
+    out[1] = mk2(rng.choice(["-"] + ra2), "p", "k", "sum", I(a))
+    out += [
+        mk2("-", "g", "k", "sum", I(a), tags=("containing",)),                     # household.family.sum
+        mk2(rng.choice(["-"] + ra2), "g", "k", rng.choice(["min", "max"]), I(a), tags=("containing",)),
+        mk2("-", "g", "k", "call", I(y), tags=("containing",)),                    # household.family("kv")
+        mk2("-", "g", "k", "project", I(y), tags=("containing",)),                 # not projectable
+        mk2("-", "p", "h.k", "sum", I(a), tags=("containing", "chain3")),
+        mk2("-", "p", "h.k.fp.h", "nb", tags=("containing", "chain5")),
+        mk2("-", "p", "k.fp.h.k", "sum", I(a), tags=("containing", "chain5")),
+        mk2("-", "G", "fp.h.k", "max", I(a), tags=("containing", "chain4")),
+        mk2("-", "G", "h", "sum", I(a), tags=("containing-converse",)),           # family.household
+        mk2("-", "G", "h.k", "call", I(y), tags=("containing-converse",)),
+        mk2("-", "p", "k.fp", "call", I(a), tags=("chain2",)),
+        mk2("-", "G", "fp.h.fp.k", "call", I(y), tags=("chain4",)),
+        mk2("-", "p", "h.fp.k.fp.h", "sum", I(a), tags=("chain5",)),
+    ]
+    if ra2:
+        out.append(mk2(rng.choice(ra2), "G", "fp", "hasrole"))
+        out.append(mk2(rng.choice(ra2), "g", "fp.k", "nb"))
+    for r in uniq2[:1]:
+        out.append(mk2("-", "G", r + ".k", "sum", I(a)))
+        out.append(mk2("-", "g", "k." + r + ".h", "sum", I(a), tags=("containing",)))
+        out.append(mk2(r, "p", "k", "from", 0, I(a)))
+    for r in uniq[:1]:
+        out.append(mk2("-", "G", "fp.h." + r + ".k", "sum", I(a), tags=("chain4",)))
     return out
 
 
@@ -680,6 +989,16 @@ def malformed_for(rng: random.Random, tok, count, members):
     ra = [r for r in _role_args(tok) if r not in _unique_roles(tok)]
     if ra:
         out.append(mk("chain", "-", "g", ra[0] + ".h", "sum", I(_ints(rng, n))))
+    # assigned positions that are no per-group permutation, or too short; a variable given an array of
+    # the wrong size; the key of an entity that is not declared as containing
+    if members:
+        out += [mk("pnth", "-", I([0] * n), 0, 0, I(_ints(rng, n))), mk("pfirst", "-", I([0] * max(0, n - 1)), I(_ints(rng, n))),
+                mk("pnth", "-", I(list(range(n))), 1, -7, I(_ints(rng, n))),
+                mk("chain", "-", "p", "h", "call", I(_ints(rng, count + 1))), mk("chain", "-", "g", "fp", "call", I(_ints(rng, n + 1)))]
+        tok2, count2, members2, _ = second_entity(rng, count, members)
+        for ct, start, scs in (("c0", "g", "k"), ("c2", "g", "k"), ("c1", "G", "h"), ("c1", "p", "k.h"), ("c3", "g", "k.x")):
+            out.append(_case(tok, count, members, "chain2", "-", tok2, count2, G.fmt_members(members2), ct, start, scs, "sum",
+                             I(_ints(rng, n)), tags=("malformed", "contain-" + ct)))
     # a member of a group the simulation does not have
     if members:
         bad = list(members)
@@ -695,7 +1014,7 @@ def malformed_for(rng: random.Random, tok, count, members):
 
 
 def generate(rng: random.Random, tier: str):
-    npop = 10000 if tier == "quick" else 60000
+    npop = 8000 if tier == "quick" else 60000
     out = []
     for k in range(npop):
         tok, count, members = random_population(rng, small=(k % 5 == 0))
